@@ -21,21 +21,23 @@ Proof. vm_compute. reflexivity. Qed.
 (* ... at these places: the generation loops of the discrete simulators iterate over
    the sets `infecteds` / `new_infecteds`; the component searches iterate over sets of
    source / target nodes; get_infected_nodes removes a set of recovered nodes *)
+(* NOTE: source line numbers; they move with every edit of simulation.py above the loop
+   (recalibrated for the tree at 45061d2).  harness/hashiter_lib.py reports a mismatch. *)
 Theorem set_order_loop_locations :
   map (fun e => (e, set_iter_where hash_iter_table e)) (entries_with_set_iter hash_iter_table) =
   [ ("discrete_SIR",
-       [("discrete_SIR", 612); ("discrete_SIR", 631); ("discrete_SIR", 635); ("discrete_SIR", 647)]);
+       [("discrete_SIR", 614); ("discrete_SIR", 633); ("discrete_SIR", 637); ("discrete_SIR", 649)]);
     ("basic_discrete_SIR",
-       [("discrete_SIR", 612); ("discrete_SIR", 631); ("discrete_SIR", 635); ("discrete_SIR", 647)]);
+       [("discrete_SIR", 614); ("discrete_SIR", 633); ("discrete_SIR", 637); ("discrete_SIR", 649)]);
     ("basic_discrete_SIS",
-       [("basic_discrete_SIS", 872); ("basic_discrete_SIS", 890); ("basic_discrete_SIS", 893)]);
+       [("basic_discrete_SIS", 874); ("basic_discrete_SIS", 892); ("basic_discrete_SIS", 895)]);
     ("percolation_based_discrete_SIR",
-       [("discrete_SIR", 612); ("discrete_SIR", 631); ("discrete_SIR", 635); ("discrete_SIR", 647)]);
-    ("get_infected_nodes", [("_out_component_", 1261); ("get_infected_nodes", 1395)]);
-    ("estimate_directed_SIR_prob_size", [("_out_component_", 1261); ("_in_component_", 1307)]);
-    ("estimate_SIR_prob_size_from_dir_perc", [("_out_component_", 1261); ("_in_component_", 1307)]);
-    ("estimate_nonMarkov_SIR_prob_size_with_timing", [("_out_component_", 1261); ("_in_component_", 1307)]);
-    ("estimate_nonMarkov_SIR_prob_size", [("_out_component_", 1261); ("_in_component_", 1307)]) ].
+       [("discrete_SIR", 614); ("discrete_SIR", 633); ("discrete_SIR", 637); ("discrete_SIR", 649)]);
+    ("get_infected_nodes", [("_out_component_", 1263); ("get_infected_nodes", 1397)]);
+    ("estimate_directed_SIR_prob_size", [("_out_component_", 1263); ("_in_component_", 1309)]);
+    ("estimate_SIR_prob_size_from_dir_perc", [("_out_component_", 1263); ("_in_component_", 1309)]);
+    ("estimate_nonMarkov_SIR_prob_size_with_timing", [("_out_component_", 1263); ("_in_component_", 1309)]);
+    ("estimate_nonMarkov_SIR_prob_size", [("_out_component_", 1263); ("_in_component_", 1309)]) ].
 Proof. vm_compute. reflexivity. Qed.
 
 (* the continuous-time simulators reach no SetOrder loop: their loops run over graph
@@ -52,12 +54,12 @@ Proof. vm_compute. reflexivity. Qed.
 Theorem unclassified_loops :
   filter (fun p => negb (match snd p with [] => true | _ => false end))
          (map (fun e => (e, other_iter_where hash_iter_table e)) (entries hash_iter_table)) =
-  [ ("fast_SIR", [("_process_trans_SIR_", 1878, "trans_delay")]);
-    ("fast_nonMarkov_SIR", [("_process_trans_SIR_", 1878, "trans_delay")]);
-    ("fast_nonMarkov_SIS", [("_process_trans_SIS_nonMarkov_", 2576, "trans_delays[v]")]);
-    ("Gillespie_complex_contagion", [("Gillespie_complex_contagion", 3741, "influence_set")]);
-    ("Gillespie_Arbitrary", [("Gillespie_simple_contagion", 4156, "get_weight[transition]")]);
-    ("Gillespie_simple_contagion", [("Gillespie_simple_contagion", 4156, "get_weight[transition]")]) ].
+  [ ("fast_SIR", [("_process_trans_SIR_", 1880, "trans_delay")]);
+    ("fast_nonMarkov_SIR", [("_process_trans_SIR_", 1880, "trans_delay")]);
+    ("fast_nonMarkov_SIS", [("_process_trans_SIS_nonMarkov_", 2578, "trans_delays[v]")]);
+    ("Gillespie_complex_contagion", [("Gillespie_complex_contagion", 3743, "influence_set")]);
+    ("Gillespie_Arbitrary", [("Gillespie_simple_contagion", 4160, "get_weight[transition]")]);
+    ("Gillespie_simple_contagion", [("Gillespie_simple_contagion", 4160, "get_weight[transition]")]) ].
 Proof. vm_compute. reflexivity. Qed.
 
 (* non-vacuity: the table covers the 23 public entry points, every one of them has at
